@@ -124,6 +124,11 @@ func genC14(ev *Ev) func(t *rapid.T) model.Case {
 				g.fars = append(g.fars, cf)
 			}
 			if len(op.UpdFARs)+len(op.FARs) > 0 {
+				if up4 && rapid.IntRange(0, 3).Draw(t, "p4break") == 0 {
+					// the P4Runtime channel breaks (the switch keeps its state) and the agent reconnects with
+					// the next request: markers must leave on the new channel
+					ops = append(ops, model.Op{Kind: "p4break"})
+				}
 				ops = append(ops, op)
 			}
 		}
@@ -184,6 +189,7 @@ func runC14(c model.Case, ev *Ev) error {
 	nontriv := false
 	changed := map[string]bool{}
 	pktBase := pktLen()
+	breaks := 0
 	for i, op := range c.Ops {
 		// tunnels before the update
 		before := map[uint32]model.FAR{}
@@ -191,6 +197,17 @@ func runC14(c model.Case, ev *Ev) error {
 			for _, f := range s.FARs {
 				before[f.ID] = f
 			}
+		}
+		if op.Kind == "p4break" {
+			if up4 {
+				r.P4.Stop()
+				time.Sleep(10 * time.Millisecond)
+				if err := r.P4.Restart(); err != nil {
+					return fmt.Errorf("INFRA: switch restart: %v", err)
+				}
+				breaks++
+			}
+			continue
 		}
 		o := run.Exec(op)
 		if o.NoResp || !o.Alive {
@@ -311,14 +328,14 @@ func runC14(c model.Case, ev *Ev) error {
 			return fmt.Errorf("%d surplus end marker(s) after the last modification", len(extra))
 		}
 	}
-	ev.Label(fmt.Sprintf("up4=%v/enabled=%v", up4, enabled))
+	ev.Label(fmt.Sprintf("up4=%v/enabled=%v/channel-breaks=%v", up4, enabled, breaks > 0))
 	ev.Case(c, nontriv, len(c.Ops))
 	return nil
 }
 
 func TestC14(t *testing.T) {
 	ev := newEv("C14")
-	ev.Rule = "sessions with 1-3 downlink FARs towards generated gNB tunnels, followed by modifications with 1-3 Update FARs each (new tunnel / buffer / drop, SNDEM flag set, clear or absent, unknown FAR IDs, flagged Create FAR), with end markers enabled and disabled, on BESS (harness unixpacket listener in place of BESS' pfcpPort) and on UP4 (every third case, one downlink FAR per session; markers captured as PacketOut on the harness switch's stream, after the modification's last Write); every packet is decoded with gopacket; non-trivial = message with >=2 updated FARs of which some but not all are flagged, after at least one earlier tunnel change; distinct by case"
+	ev.Rule = "sessions with 1-3 downlink FARs towards generated gNB tunnels, followed by modifications with 1-3 Update FARs each (new tunnel / buffer / drop, SNDEM flag set, clear or absent, unknown FAR IDs, flagged Create FAR), with end markers enabled and disabled, on BESS (harness unixpacket listener in place of BESS' pfcpPort) and on UP4 (every third case, one downlink FAR per session; markers captured as PacketOut on the harness switch's stream, after the modification's last Write; before a quarter of the modifications the P4Runtime channel breaks - the switch keeps its state - and the agent reconnects with the request); every packet is decoded with gopacket; non-trivial = message with >=2 updated FARs of which some but not all are flagged, after at least one earlier tunnel change; distinct by case"
 	ev.Assume = []string{"a flagged update of a rule that had no tunnel before (buffering/dropping FAR) may or may not emit a marker: not asserted"}
 	runProp(t, ev, "markers", true, genC14(ev), runC14)
 }
